@@ -214,6 +214,9 @@ def rule_accumulate(ck: Check, repo: Repo) -> None:
         def loop_policy(self, node, it):
             return None
 
+    exits = find_calls(an, lambda c, f: f == "sys.exit")
+    m = re.fullmatch(r"min\((\w+), 1\)|min\(1, (\w+)\)", ast.unparse(exits[0].args[0])) if len(exits) == 1 and exits[0].args else None
+    acc_name = (m.group(1) or m.group(2)) if m else "result"
     n = 0
     for d, leaf, _ in tabulate(an, LH()):
         flat = []
@@ -228,15 +231,15 @@ def rule_accumulate(ck: Check, repo: Repo) -> None:
         calls = [e for inl, e in flat if inl and e[0] == "annotate-file"]
         n += 1
         r.instance("path:" + show_valuation(d), {"accumulate": [a[1:] for a in acc], "exit": leaf.outcome[:2]})
-        if len(calls) != 1 or len(acc) != 1 or acc[0][1] != "result" or acc[0][2] != "Add" or not acc[0][3].startswith(("add_header_to_file(", "call_add_header_to_file")):
+        if len(calls) != 1 or len(acc) != 1 or acc[0][1] != acc_name or acc[0][2] != "Add" or not acc[0][3].startswith(("add_header_to_file(", "call_add_header_to_file")):
             r.violation(aq, "per-file result not accumulated", f"{acc}", repo.loc(an))
         if ends != [("element-end", "next")]:
             r.violation(aq, "loop left early", f"{ends}: the remaining files must still be processed", repo.loc(an))
-        if leaf.outcome[0] != "exit" or leaf.outcome[1] not in ("min(result__after_loop, 1)", "min(1, result__after_loop)"):
+        if leaf.outcome[0] != "exit" or leaf.outcome[1] not in (f"min({acc_name}__after_loop, 1)", f"min(1, {acc_name}__after_loop)"):
             if True:
                 r.violation(aq, "exit status", f"{leaf.outcome}; expected sys.exit(min(result, 1))", repo.loc(an))
     r.floor(2, "annotate paths", got=n)
-    if "result = 0" not in ast.unparse(an):
+    if f"{acc_name} = 0" not in ast.unparse(an):
         r.violation(aq, "result initialisation", "result must start at 0", repo.loc(an))
 
 
